@@ -140,6 +140,7 @@ func checkC14(c *core.Ctx) {
 			r7.Missing("pcapgo.(*Writer).WriteFileHeader/params", fmt.Sprintf("only %d header fields written from parameters", n))
 		}
 	}
+	writerNarrowSizes(c, c.Rule("R14.10", "T", "the writers compute no size in uint8/uint16 that is widened afterwards"))
 	r8 := c.Rule("R14.8", "T", "unsigned fields read from a file are not sign-extended (no same-width signed conversion before widening)")
 	r9 := c.Rule("R14.9", "T", "ReadPacketData* (the copying calls) return no slice of memory owned by the reader")
 	readerValueRules(c, r8, r9)
@@ -729,4 +730,82 @@ func mentionsVal(v, x ssa.Value, depth int) bool {
 		}
 	}
 	return false
+}
+
+// writerNarrowSizes (R14.10): the capture-file writers compute block and
+// option sizes from lengths that can be as large as the field that stores
+// them (65535 for an option value).  Rounding such a length up, or adding a
+// header size to it, in uint8/uint16 wraps for the largest values; the wrapped
+// size then goes into the block length while the bytes written are not
+// shortened, so the file no longer frames.  Every addition/multiplication in a
+// narrow unsigned type on a non-constant operand whose result is widened
+// afterwards is reported, in the writer files.
+func writerNarrowSizes(c *core.Ctx, r *core.Rule) {
+	p := c.P
+	n, nAr := 0, 0
+	for _, fn := range pkgFunctions(p, "pcapgo") {
+		f := p.Pos(fn.Pos())
+		if !strings.Contains(f, "write") {
+			continue
+		}
+		k := 0
+		core.Instrs(fn, func(ins ssa.Instruction) {
+			bo, ok := ins.(*ssa.BinOp)
+			if !ok {
+				return
+			}
+			nAr++
+			if bo.Op != token.ADD && bo.Op != token.MUL && bo.Op != token.SHL {
+				return
+			}
+			bt, ok := bo.Type().Underlying().(*types.Basic)
+			if !ok || (bt.Kind() != types.Uint8 && bt.Kind() != types.Uint16) {
+				return
+			}
+			_, kx := core.ConstInt(bo.X)
+			_, ky := core.ConstInt(bo.Y)
+			if kx && ky {
+				return
+			}
+			// is the (possibly masked) result widened?
+			widened := false
+			seen := map[ssa.Value]bool{}
+			var follow func(v ssa.Value, d int)
+			follow = func(v ssa.Value, d int) {
+				if d > 4 || seen[v] || widened {
+					return
+				}
+				seen[v] = true
+				refs := v.Referrers()
+				if refs == nil {
+					return
+				}
+				for _, ref := range *refs {
+					switch x := ref.(type) {
+					case *ssa.Convert:
+						if wb, ok := x.Type().Underlying().(*types.Basic); ok && wb.Info()&types.IsInteger != 0 && wb.Kind() != types.Uint8 && wb.Kind() != types.Uint16 && wb.Kind() != types.Int8 && wb.Kind() != types.Int16 {
+							widened = true
+						}
+					case *ssa.BinOp:
+						if x.Op == token.AND || x.Op == token.AND_NOT {
+							follow(x, d+1)
+						}
+					}
+				}
+			}
+			follow(bo, 0)
+			if !widened {
+				return
+			}
+			n++
+			k++
+			r.Violate(fmt.Sprintf("%s/narrow-size#%d", core.FnKey(fn), k), p.InstrPos(ins), "a size is computed in "+bt.Name()+" from a length that can reach the maximum of that type and is widened only afterwards: for the largest lengths the sum wraps, the block (or option) length written to the file is too small by 2^16 while the value is written in full, and a reader loses the framing from that block on", nil)
+		})
+	}
+	c.Counts["writer_arithmetic_ops"] = nAr
+	if nAr < 10 {
+		r.Missing("pcapgo/writer arithmetic", fmt.Sprintf("only %d operations found", nAr))
+	} else if n == 0 {
+		r.OK("pcapgo/writers-no-narrow-sizes", "", fmt.Sprintf("%d arithmetic operations in the writers; none adds or multiplies in uint8/uint16 before widening", nAr))
+	}
 }
